@@ -5,6 +5,7 @@ from ..core.program import norm, own_nodes
 from ..core.world import world
 from ..rules import generic as G
 from ..rules import timeline as TL
+from ..rules import extra as X
 from ..rules.dispatch import find_chain, lift_chain
 
 EXPLANATION = (
@@ -109,6 +110,7 @@ def run(ctx):
     ok_auto = len(a_v) == 1 and len(a_s) == 1 and isinstance(a_v[0], ast.Subscript) and norm(a_v[0].value) == "voice_mapping" \
         and isinstance(a_s[0], ast.Subscript) and norm(a_s[0].value) == "staff_mapping"
     ctx.check(ok_auto, "OFFSET", "auto mode mappings", func=f, construct="offset:auto", msg="auto mode must renumber through voice_mapping / staff_mapping")
+    X.rule_offset_table_is_max(ctx)
     # ---- DISCARD
     ctx.rule("DISCARD", "el_to_discard (applied to all parts but the first) contains the structural classes the documentation lists; "
                         "Clef is kept in the staff modes (each part keeps its staves)")
